@@ -364,6 +364,29 @@ func c15Hashes(thorough bool) [][]byte {
 	return hs
 }
 
+// c15ScriptLikeHashes: hashes that contain, at every position, the byte patterns a P2PKH script is
+// made of or recognised by (a recogniser that searches the raw script bytes for a pattern finds it
+// inside the pushed hash), and every value of the first byte. Derivation / recovery only.
+func c15ScriptLikeHashes() (ks []c15Key) {
+	pats := [][]byte{{0x88, 0xac}, {0x76, 0xa9}, {0xa9, 0x14}, {0x76, 0xa9, 0x14}, {0x14}, {0x6a}, {0x00, 0x6a}, {0x4c}, {0x4d}, {0x4e}, {0x88}, {0xac}, {0x88, 0x88, 0xac}, {0xac, 0x88}, {0x00, 0x63, 0x03, 0x6f, 0x72, 0x64}, {0x68}, {0x01}, {0x19}}
+	for _, pt := range pats {
+		for pos := 0; pos+len(pt) <= 20; pos++ {
+			h := fill(20, 0x21)
+			copy(h[pos:], pt)
+			ks = append(ks, c15Key{Hash: h, Mainnet: true}, c15Key{Hash: h, Mainnet: false})
+		}
+	}
+	for b := 0; b < 256; b++ {
+		h := fill(20, 0x5b)
+		h[0] = byte(b)
+		ks = append(ks, c15Key{Hash: h, Mainnet: b%2 == 0})
+		h2 := make([]byte, 20)
+		h2[1], h2[19] = byte(b), byte(b)
+		ks = append(ks, c15Key{Hash: h2, Mainnet: b%2 == 1})
+	}
+	return
+}
+
 // keysWithShortX returns private keys whose public X coordinate starts with a zero
 // byte (about one key in 256): serialisations assembled from big.Int bytes lose it.
 var shortXOnce sync.Once
@@ -399,7 +422,7 @@ func testPrivKeys(n int) [][]byte {
 
 func init() {
 	p := register(&Prop{ID: "C15", Level: "exploration",
-		Rule: "exhaustive: for 12 (quick) / 28 (thorough) 20-byte hashes (all-zero, leading zeros, all-ff, structured) and 6/12 keys, both networks: derivation through every address/P2PKH constructor (incl. the two extended-key constructors, whose derivation path is the library's own random choice and is followed by the oracle) compared with a reference Base58Check encoder and the canonical 25-byte script; and for every derived address EVERY single-character substitution (58 symbols x every position, plus 5 non-ASCII replacements per position: code points U+01xx/U+20xx/U+100xx whose low byte is the replaced character, the character with the high bit set, 0xff), adjacent transposition, insertion (58 symbols + 6 non-Base58 characters at every gap incl. a leading '1') and deletion, plus wrong version bytes (0x05,0xc4,0x01), 24/26-byte payloads with correct checksums and over-long strings whose value is the payload plus k*2^200 (k in 9 values incl. multiples of 58); keys include two whose X coordinate begins with a zero byte, well-formed BIP276 texts (which are not addresses) and texts that merely begin like the BIP276 script prefix; hash / key argument buffers that held another hash / key in an earlier call; each through NewAddressFromString, NewP2PKHFromAddress, PayToAddress, ChangeToAddress and ValidateAddress: accepted iff the reference decoder accepts. distinct_nontrivial = distinct strings judged",
+		Rule: "exhaustive: for 12 (quick) / 28 (thorough) 20-byte hashes (all-zero, leading zeros, all-ff, structured) and 6/12 keys, both networks: derivation through every address/P2PKH constructor (incl. the two extended-key constructors, whose derivation path is the library's own random choice and is followed by the oracle) compared with a reference Base58Check encoder and the canonical 25-byte script (derivation and recovery additionally for ~1,100 hashes that carry script-structure byte patterns - 88ac, 76a914, 6a, push headers, the ord envelope - at every position, and every first-byte value); and for every derived address EVERY single-character substitution (58 symbols x every position, plus 5 non-ASCII replacements per position: code points U+01xx/U+20xx/U+100xx whose low byte is the replaced character, the character with the high bit set, 0xff), adjacent transposition, insertion (58 symbols + 6 non-Base58 characters at every gap incl. a leading '1') and deletion, plus wrong version bytes (0x05,0xc4,0x01), 24/26-byte payloads with correct checksums and over-long strings whose value is the payload plus k*2^200 (k in 9 values incl. multiples of 58); keys include two whose X coordinate begins with a zero byte, well-formed BIP276 texts (which are not addresses) and texts that merely begin like the BIP276 script prefix; hash / key argument buffers that held another hash / key in an earlier call; each through NewAddressFromString, NewP2PKHFromAddress, PayToAddress, ChangeToAddress and ValidateAddress: accepted iff the reference decoder accepts. distinct_nontrivial = distinct strings judged",
 	})
 	sStr := NewSpace(p, "strings", c15StrCheck)
 	sKey := NewSpace(p, "derive", c15KeyCheck)
@@ -421,7 +444,7 @@ func init() {
 				r.Distinct("k", []byte(c.Hash), []byte(c.PrivKey), c.Mainnet)
 			}
 			return fs
-		}}).Slice(r, keys)
+		}}).Slice(r, append(append([]c15Key(nil), keys...), c15ScriptLikeHashes()...))
 		r.Sample("derive", keys[2])
 		// strings
 		extra := []string{"0", "O", "I", "l", " ", "é"}
